@@ -16,6 +16,9 @@ import (
 // ErrRepositoryInconsistent indicates that something within a package repository is inconsistent.
 var ErrRepositoryInconsistent = errors.New("package repository inconsistent")
 
+// ErrDependencyWithoutImage indicates that a dependency of a package manifest does not specify an image.
+var ErrDependencyWithoutImage = errors.New("package dependency without image")
+
 // BuildResolver resolves dependencies when building a package.
 type BuildResolver struct {
 	// Loader pulls package repositories.
@@ -42,7 +45,10 @@ func (r *BuildResolver) AddManifest(
 	scope := solver.Scope[struct{}, buildSD, buildCD]{Data: buildSD{pkg, platform, locks}}
 
 	// Create scope constrainers.
-	for _, dep := range pkg.Spec.Dependencies {
+	for i, dep := range pkg.Spec.Dependencies {
+		if dep.Image == nil {
+			return nil, fmt.Errorf("%w: spec.dependencies[%d]", ErrDependencyWithoutImage, i)
+		}
 		if dep.Image.Range != "" {
 			rng, err := semver.NewConstraint(dep.Image.Range)
 			if err != nil {
@@ -125,7 +131,7 @@ func (r BuildResolver) Solve() (err error) {
 		scopeData := dep.CandidateScopeAccessor().ScopeData()
 
 		for _, originalDep := range depData.forManifest.Spec.Dependencies {
-			if originalDep.Image.Package == depData.fqdn {
+			if originalDep.Image != nil && originalDep.Image.Package == depData.fqdn {
 				pkgDep := manifests.PackageManifestLockDependency{
 					Name:    originalDep.Image.Name,
 					Image:   depData.entry.Data.Image,
